@@ -5,6 +5,9 @@ from vlib import Check
 from checks import opslib
 
 
+BIG = (16777217, 16777219, 33554435, 100000001, 1073741825, 2147483639 // 2)
+
+
 def shapes_of(dmin, dmax, emax, emin=1):
     for d in range(dmin, dmax + 1):
         for s in itertools.product(range(emin, emax + 1), repeat=d):
@@ -150,6 +153,13 @@ def table(D, E, full):
             for step in (-3, -2, -1, 1, 2, 3): out.append(C("arange", [], start=st, stop=sp, step=step))
             if sp >= st: out.append(C("arange2", [], start=st, stop=sp))
     for sp in range(0, 8): out.append(C("arange1", [], stop=sp))
+    # large ranges (the view is lazy): length and the first / middle / last element
+    def arange_len(st, sp, step): return max(0, -((st - sp) // step)) if step > 0 else max(0, -((sp - st) // -step))
+    for n in BIG:
+        for form, st, sp, step in [(1, 0, n, 1), (2, 1, n, 1), (2, -5, n, 1), (2, n // 2, n, 1), (3, 0, n, 1), (3, 0, n, 2), (3, 1, n, 3), (3, -5, n, 3),
+                                   (3, n, 0, -1), (3, n, 1, -2), (3, n, -5, -3), (3, n // 2, -n // 2, -3), (3, -n // 2, n // 2, 2), (3, 5, n, 3)]:
+            ln = arange_len(st, sp, step)
+            out.append(C("arange_at", [], form=form, start=st, stop=sp, step=step, at=sorted({0, ln // 2, ln - 1})))
     for st in range(-2, 4):
         for sp in range(-2, 6):
             for num in range(1, 7):
@@ -249,9 +259,6 @@ def empty_result(c):
     if c["op"] == "diagonal":
         s = c["shapes"][0]; d = len(s); n1 = s[a["axis1"] % d]; n2 = s[a["axis2"] % d]; off = a["offset"]
         return (max(0, min(n1, n2 - off)) if off >= 0 else max(0, min(n1 + off, n2))) == 0
-    if c["op"] == "arange":
-        st, sp, step = a["start"], a["stop"], a["step"]
-        return (sp - st) * (1 if step > 0 else -1) <= 0
     return False
 
 
